@@ -114,6 +114,7 @@ type genOpts struct {
 	allowFixedSpanWidth     bool // F4: fixed layout, width on a column-spanning cell of the first row
 	allowSpanPercent        bool // F5: percentage width on a column-spanning cell
 	allowSpanAllConstrained bool // F6: column-spanning cell over columns that all carry a width
+	allowSpanSlack          bool // F6b: spanned column with a px width, or a percentage and contents with min-content < max-content
 	allowPercentOver100     bool // F7: column percentages summing to more than 100
 	// F8: automatic layout, every column carries a width (px or %)
 	allowAllConstrainedSpecified bool
@@ -122,32 +123,41 @@ type genOpts struct {
 	allowHeaderWithSplittableCells bool
 }
 
-// defaultOpts returns the generator options.  VERIF_C13_ALLOW (development only, e.g. "F1,F2,F7")
-// lifts the named restrictions, to try the check on a tree where the defects are repaired.
+// defaultOpts returns the generator options: the restrictions of open findings (F3, F5, F6, F8, F11)
+// are in force, those of repaired defects (F1, F2, F4, F6b, F7) are lifted.  Development only:
+// VERIF_C13_ALLOW="F5,F8" lifts more, VERIF_C13_RESTRICT="F1,F6b" re-imposes lifted ones.
 func defaultOpts() genOpts {
-	o := genOpts{rtl: true}
-	for _, f := range strings.Split(os.Getenv("VERIF_C13_ALLOW"), ",") {
-		switch strings.TrimSpace(f) {
-		case "F1":
-			o.allowEmptyOriginColumns = true
-		case "F2":
-			o.allowLoneSpanEnd = true
-		case "F3":
-			o.allowFixedCellBoxes = true
-		case "F4":
-			o.allowFixedSpanWidth = true
-		case "F5":
-			o.allowSpanPercent = true
-		case "F6":
-			o.allowSpanAllConstrained = true
-		case "F7":
-			o.allowPercentOver100 = true
-		case "F8":
-			o.allowAllConstrainedSpecified = true
-		case "F11":
-			o.allowHeaderWithSplittableCells = true
+	o := genOpts{rtl: true,
+		allowEmptyOriginColumns: true, allowLoneSpanEnd: true, allowFixedSpanWidth: true,
+		allowSpanSlack: true, allowPercentOver100: true}
+	set := func(list string, v bool) {
+		for _, f := range strings.Split(list, ",") {
+			switch strings.TrimSpace(f) {
+			case "F1":
+				o.allowEmptyOriginColumns = v
+			case "F2":
+				o.allowLoneSpanEnd = v
+			case "F3":
+				o.allowFixedCellBoxes = v
+			case "F4":
+				o.allowFixedSpanWidth = v
+			case "F5":
+				o.allowSpanPercent = v
+			case "F6":
+				o.allowSpanAllConstrained = v
+			case "F6b":
+				o.allowSpanSlack = v
+			case "F7":
+				o.allowPercentOver100 = v
+			case "F8":
+				o.allowAllConstrainedSpecified = v
+			case "F11":
+				o.allowHeaderWithSplittableCells = v
+			}
 		}
 	}
+	set(os.Getenv("VERIF_C13_ALLOW"), true)
+	set(os.Getenv("VERIF_C13_RESTRICT"), false)
 	return o
 }
 
